@@ -140,10 +140,11 @@ func (d *Data) UnmarshalXML(dec *xml.Decoder, start xml.StartElement) error {
 			// re-allocating every time.
 			d.Data = make([]byte, decLen)
 		}
-		_, err = base64.StdEncoding.Decode(d.Data, v.Data)
+		n, err := base64.StdEncoding.Decode(d.Data, v.Data)
 		if err != nil {
 			return err
 		}
+		d.Data = d.Data[:n]
 	}
 	return nil
 }
